@@ -270,25 +270,54 @@ impl Serialize for Collected<'_> {
 
 #[kani::proof]
 #[kani::unwind(6)]
-//@ tier=quick class=core cap=600 bounds="Display emitting 0..=3 symbolic ASCII bytes in two write_str pieces (through core::fmt::write)"
+//@ tier=quick class=core cap=900 bounds="Display emitting two write_str pieces, each 0..=2 bytes of well-formed UTF-8 (ASCII or one 2-byte scalar), through core::fmt::write"
 fn c02_collect_str() {
-    let raw: [u8; 3] = kani::any();
-    kani::assume(raw[0] < 0x80 && raw[1] < 0x80 && raw[2] < 0x80);
-    let len: usize = kani::any();
-    let cut: usize = kani::any();
-    kani::assume(len <= 3 && cut <= len);
-    let whole = unsafe { core::str::from_utf8_unchecked(&raw[..len]) };
-    let a = unsafe { core::str::from_utf8_unchecked(&raw[..cut]) };
-    let b = unsafe { core::str::from_utf8_unchecked(&raw[cut..len]) };
+    let mut s1 = [0u8; 2];
+    let mut s2 = [0u8; 2];
+    let a = piece(&mut s1);
+    let b = piece(&mut s2);
+    // the formatted text = a ++ b
+    let mut whole = [0u8; 4];
+    let mut n = 0;
+    let mut i = 0;
+    while i < a.len() {
+        whole[n] = a.as_bytes()[i];
+        n += 1;
+        i += 1;
+    }
+    let mut i = 0;
+    while i < b.len() {
+        whole[n] = b.as_bytes()[i];
+        n += 1;
+        i += 1;
+    }
+    let text = unsafe { core::str::from_utf8_unchecked(&whole[..n]) };
     let mut b1 = [0u8; 6];
     let mut b2 = [0u8; 6];
     let r1 = postcard::to_slice(&Collected(TwoPiece(a, b)), &mut b1).unwrap();
-    let r2 = postcard::to_slice(whole, &mut b2).unwrap();
-    assert!(r1.len() == r2.len());
+    let r2 = postcard::to_slice(text, &mut b2).unwrap();
+    assert!(r1.len() == r2.len(), "collect_str length differs from serialize_str of the formatted text");
     let mut i = 0;
     while i < r1.len() {
-        assert!(r1[i] == r2[i]);
+        assert!(r1[i] == r2[i], "collect_str bytes differ from serialize_str of the formatted text");
         i += 1;
     }
-    kani::cover!(len == 3 && cut == 1, "two non-empty pieces reachable");
+    // and it is the spec encoding: varint(byte length) ++ bytes
+    assert!(r1[0] as usize == n && r1.len() == n + 1);
+    kani::cover!(a.len() == 1 && b.len() == 2, "ASCII piece + 2-byte scalar piece reachable");
+    kani::cover!(n == 4, "two 2-byte pieces reachable");
+}
+
+/// 0..=2 bytes of well-formed UTF-8: "", one ASCII byte, two ASCII bytes, or one 2-byte scalar
+fn piece(store: &mut [u8; 2]) -> &str {
+    *store = kani::any();
+    let len: usize = kani::any();
+    kani::assume(len <= 2);
+    let ok = match len {
+        0 => true,
+        1 => store[0] < 0x80,
+        _ => (store[0] < 0x80 && store[1] < 0x80) || (store[0] >= 0xC2 && store[0] <= 0xDF && store[1] >= 0x80 && store[1] <= 0xBF),
+    };
+    kani::assume(ok);
+    unsafe { core::str::from_utf8_unchecked(&store[..len]) }
 }
